@@ -11,7 +11,8 @@ import (
 // A syntactic write-set analysis (coq/Gen/Effects.v): which functions assign
 // package-level variables or let them escape, and which tree-printing / building
 // methods assign through their receiver or arguments. It is deliberately simple
-// and named in the trusted base: it sees assignments, ++/--, delete, clear,
+// and named in the trusted base: it sees assignments, ++/--, delete, clear, the in-place
+// functions of slices/sort/maps (inPlaceMutators),
 // maps.Copy destinations and plain aliasing, not writes through reflection or unsafe.
 
 func rootIdent(x ast.Expr) *ast.Ident {
@@ -157,6 +158,65 @@ func analyse(pkgName string, p *pkgInfo, e *effects) {
 			}
 			nodeMethod := pkgName == "ast" && (fd.Name.Name == "WriteTo" || fd.Name.Name == "Precedence") && recvType != "CodeWriter"
 			frozen := frozenArgs[fname]
+			if pkgName == "ast" && recvType == "CodeWriter" && fd.Type.Params != nil {
+				// the printer hands slices of the tree (comment lists, ...) to the code
+				// writer: every parameter of a CodeWriter method must come out unchanged
+				for _, f := range fd.Type.Params.List {
+					for _, n := range f.Names {
+						frozen = append(frozen, n.Name)
+					}
+				}
+			}
+			// local names bound to (a part of) a frozen argument or of the receiver of a node
+			// method are aliases of it: writes through them count (x := arg[1:]; x[i] = ...)
+			recvAliases := map[string]bool{}
+			aliasRoot := func(x ast.Expr) ast.Expr {
+				if u, ok := x.(*ast.UnaryExpr); ok && u.Op == token.AND {
+					x = u.X
+				}
+				switch x.(type) {
+				case *ast.Ident, *ast.SelectorExpr, *ast.IndexExpr, *ast.SliceExpr, *ast.StarExpr, *ast.ParenExpr:
+					return x
+				}
+				return nil
+			}
+			for pass := 0; pass < 3; pass++ {
+				ast.Inspect(fd.Body, func(n ast.Node) bool {
+					bind := func(lhs, rhs ast.Expr) {
+						l, ok := lhs.(*ast.Ident)
+						if !ok || l.Name == "_" {
+							return
+						}
+						r := aliasRoot(rhs)
+						if r == nil {
+							return
+						}
+						id := rootIdent(r)
+						if id == nil {
+							return
+						}
+						if contains(frozen, id.Name) && !contains(frozen, l.Name) {
+							frozen = append(frozen, l.Name)
+						}
+						if nodeMethod && (id.Name == recvName || recvAliases[id.Name]) {
+							recvAliases[l.Name] = true
+						}
+					}
+					switch t := n.(type) {
+					case *ast.AssignStmt:
+						if len(t.Lhs) == len(t.Rhs) {
+							for i := range t.Lhs {
+								bind(t.Lhs[i], t.Rhs[i])
+							}
+						}
+					case *ast.RangeStmt:
+						if t.Value != nil {
+							bind(t.Value, t.X)
+						}
+					}
+					return true
+				})
+			}
 			noteWrite := func(lhs ast.Expr) {
 				if _, isId := lhs.(*ast.Ident); isId && loc[lhs.(*ast.Ident).Name] {
 					// assignment to a local variable itself (not through it)
@@ -174,7 +234,7 @@ func analyse(pkgName string, p *pkgInfo, e *effects) {
 				if _, plain := lhs.(*ast.Ident); plain {
 					return // rebinding a local name does not mutate what it pointed to
 				}
-				if nodeMethod && id.Name == recvName {
+				if nodeMethod && (id.Name == recvName || recvAliases[id.Name]) {
 					e.recvWrites = append(e.recvWrites, fname+" assigns "+exprString(stripIndex(lhs)))
 				}
 				if contains(frozen, id.Name) {
@@ -204,13 +264,13 @@ func analyse(pkgName string, p *pkgInfo, e *effects) {
 					noteWrite(t.X)
 				case *ast.CallExpr:
 					fn := exprString(t.Fun)
-					if (fn == "delete" || fn == "clear" || fn == "maps.Copy" || fn == "copy") && len(t.Args) > 0 {
+					if (fn == "delete" || fn == "clear" || fn == "maps.Copy" || fn == "copy" || inPlaceMutators[fn]) && len(t.Args) > 0 {
 						noteWriteThrough := t.Args[0]
 						if g, ok := isGlobal(noteWriteThrough); ok {
 							e.globalWrites = append(e.globalWrites, fname+" mutates "+g+" with "+fn)
 						}
 						if id := rootIdent(noteWriteThrough); id != nil {
-							if nodeMethod && id.Name == recvName {
+							if nodeMethod && (id.Name == recvName || recvAliases[id.Name]) {
 								e.recvWrites = append(e.recvWrites, fname+" mutates "+exprString(noteWriteThrough)+" with "+fn)
 							}
 							if contains(frozen, id.Name) {
@@ -245,6 +305,16 @@ func analyse(pkgName string, p *pkgInfo, e *effects) {
 			})
 		}
 	}
+}
+
+// library functions that rewrite the backing array of their first argument in place
+var inPlaceMutators = map[string]bool{
+	"slices.Reverse": true, "slices.Sort": true, "slices.SortFunc": true, "slices.SortStableFunc": true,
+	"slices.Compact": true, "slices.CompactFunc": true, "slices.Delete": true, "slices.DeleteFunc": true,
+	"slices.Insert": true, "slices.Replace": true,
+	"sort.Slice": true, "sort.SliceStable": true, "sort.Sort": true, "sort.Stable": true,
+	"sort.Strings": true, "sort.Ints": true, "sort.Float64s": true,
+	"maps.DeleteFunc": true, "maps.Insert": true,
 }
 
 func stripIndex(x ast.Expr) ast.Expr {
